@@ -142,6 +142,26 @@ CHECKS = {
         note=TB + "expat, the raw-appended fallback locator and np.genfromtxt on damaged input are exercised, not modelled; the "
              "codec-level lemma (a proper prefix of an encoded array never decodes to the full array) is part of C05's model.",
         technique="Coq proof of the CLI decision layer + exhaustive fault enumeration over cut positions", ref="7 (C18)"),
+    "C06": dict(
+        text="Theorems (unbounded sizes, any number of pieces, any piece order): duplicate map correct (stable lexicographic "
+             "argsort + fuelled bisection), fresh points of a later piece in order-preserving bijection with the appended index "
+             "range, the repaired merge conserves every cell with its corner coordinates and data and every point once with its "
+             "values, merge of all pieces is the global data set up to permutation; structured: for every decomposition the piece "
+             "cell index sets partition the global range, point index sets cover it, merging restrictions of a global x-fastest "
+             "field returns that field, per-axis decomposition from piece extents; the pinned early return is refuted by a "
+             "computed witness (open finding F-C06a, reported as KNOWN-FINDING). Tied to merge(), .pvtu/.pvtp and "
+             "StructuredFieldMerger / .pvti/.pvtr/.pvts (exhaustive over all decompositions of lattices with extents <= 3).",
+        note=TB + "The three-axis assembly of the structured decomposition and exact overlap of shared lattice points are tied by "
+             "the harness only. Built by a helper agent following DESIGN.md section 7 (C06).",
+        technique="Coq proof of the merge / structured-merger model + model/implementation correspondence (exhaustive on small lattices)", ref="7 (C06)"),
+    "C07": dict(
+        text="Theorems: x-fastest lattice numbering, connectivity of image/rectilinear/structured grids correct for d = 1,2,3 with "
+             "zero extents in any subset of directions (pixel/voxel and quad/hexahedron order), point formulas of image and "
+             "rectilinear meshes and their agreement (exact in Q), reader cell-index map keyed by the mesh's own type, the "
+             "repaired from_meshio keeps every block with its data. Tied to .vti/.vtr/.vts/.vtu/.vtk/.xdmf reads of the same "
+             "grids against ground truth, all representation pairs through MeshFieldsComparator, and the mesh classes against the model.",
+        note=TB + "meshio is an oracle for legacy .vtk / .xdmf files; `structured_as_explicit` via mesh_equal is tied by the comparator runs, not a theorem.",
+        technique="Coq proof of the structured-grid model + model/implementation correspondence", ref="7 (C07)"),
 }
 
 ALL = [f"C{i:02d}" for i in range(1, 21)]
